@@ -46,38 +46,36 @@ func extractFiles(input *requests.Request) *UploadMap {
 		return uploadMap
 	}
 	for varName, value := range input.Variables {
-		uploadMap.extract(value, varName)
-		// if the value was an upload, set the respective Request variable to null
-		if _, ok := value.(*requests.Upload); ok {
-			input.Variables[varName] = nil
-		}
+		// nested values are shared with the requests which go to other services:
+		// the uploads are nulled in a copy, not in the client's own variable tree
+		input.Variables[varName] = uploadMap.extract(value, varName)
 	}
 	return uploadMap
 }
 
-func (u *UploadMap) extract(value interface{}, path string) {
+// extract registers the uploads found in value and returns value with every upload set to null,
+// containers on the way are copied and the original value is left untouched
+func (u *UploadMap) extract(value interface{}, path string) interface{} {
 	switch val := value.(type) {
 	case *requests.Upload: // Upload found
 		u.Add(val, path)
+		return nil
+	case requests.Upload:
+		return nil
 	case map[string]interface{}:
+		res := make(map[string]interface{}, len(val))
 		for k, v := range val {
-			u.extract(v, fmt.Sprintf("%s.%s", path, k))
-			// if the value was an upload, set the respective QueryInput variable to null
-			switch v.(type) {
-			case *requests.Upload, requests.Upload:
-				val[k] = nil
-			}
+			res[k] = u.extract(v, fmt.Sprintf("%s.%s", path, k))
 		}
+		return res
 	case []interface{}:
+		res := make([]interface{}, len(val))
 		for i, v := range val {
-			u.extract(v, fmt.Sprintf("%s.%d", path, i))
-			// if the value was an upload, set the respective QueryInput variable to null
-			switch v.(type) {
-			case *requests.Upload, requests.Upload:
-				val[i] = nil
-			}
+			res[i] = u.extract(v, fmt.Sprintf("%s.%d", path, i))
 		}
+		return res
 	}
+	return value
 }
 
 func prepareMultipart(payload []byte, uploadMap UploadMap) (body []byte, contentType string, err error) {
